@@ -353,7 +353,7 @@ func checkPlan(w *out.W, d dplan) {
 				now = nw
 			}
 			if !eqStrs(cmds, up) {
-				w.Violation(d.id, "upfile-liquibase", fmt.Sprintf("changeset statements %q, Cmds %q | %s", cmds, up, d.desc))
+				w.Violation(d.id, "upfile-liquibase", fmt.Sprintf("changeset statements %s, Cmds %s | %s", trunc(fmt.Sprintf("%q", cmds), 2000), trunc(fmt.Sprintf("%q", up), 2000), d.desc))
 			}
 			var got []string
 			for i := len(rb) - 1; i >= 0; i-- {
